@@ -219,6 +219,27 @@ pub fn run(args: &Args, rep: &mut Report) {
         if args.flag("dump") {
             dump(&out);
         }
+        if let Some(w) = args.get("dump-window") {
+            let v: Vec<u64> = w.split(',').filter_map(|x| x.parse().ok()).collect();
+            dump_window(&out, v[0] == 1, v[1], v[2]);
+        }
+        if let Some(n) = args.get("dump-wire-tail") {
+            let n: usize = n.parse().unwrap_or(60);
+            let sent = out.net.with(|x| x.sent.clone());
+            for e in sent.iter().skip(sent.len().saturating_sub(n)) {
+                eprintln!("  {:>10.3} ms {} -> {} len {:>4} ord {} {:?} delay {:?}", e.t.as_secs_f64() * 1000.0, e.src, e.dst, e.len, e.ordinal, e.fate, e.delay);
+            }
+        }
+        if let Some(path) = args.get("dump-events") {
+            use std::io::Write;
+            let mut f = std::fs::File::create(path).unwrap();
+            for (vp, e) in &out.events {
+                let _ = writeln!(f, "{:?}\t{}", vp, serde_json::to_string(e).unwrap_or_default());
+            }
+        }
+        if let Some(sid) = args.get("dump-stream") {
+            dump_stream(&out, sid.parse().unwrap_or(0));
+        }
         rep.evaluations += 1;
         for (sig, what) in ver.findings {
             rep.violation(format!("C02.{sig}"), what, case.to_json());
@@ -341,6 +362,66 @@ pub fn run_leg(args: &Args, rep: &mut Report, prop: &str) {
         }
         for (sig, what) in eval(&case, &out) {
             rep.violation(format!("{prop}.l2.{sig}"), what, case.to_json());
+        }
+    }
+}
+
+/// debugging aid: qlog lines that mention stream `sid`
+pub fn dump_stream(out: &Outcome, sid: u64) {
+    for (vp, e) in &out.events {
+        let Ok(j) = serde_json::to_value(e) else { continue };
+        let name = j["name"].as_str().unwrap_or("");
+        let d = &j["data"];
+        let hit = match name {
+            "quic:packet_sent" | "quic:packet_received" | "quic:packet_lost" => d["frames"].as_array().is_some_and(|fs| fs.iter().any(|f| f["stream_id"] == sid && f["frame_type"] != "max_stream_data")),
+            "quic:stream_state_updated" => d["stream_id"] == sid,
+            _ => false,
+        };
+        if hit {
+            let frames: Vec<String> = d["frames"].as_array().map(|fs| fs.iter().filter(|f| f["stream_id"] == sid).map(|f| format!("{}[{}+{} fin={}]", f["frame_type"].as_str().unwrap_or("?"), f["offset"], f["length"], f["fin"])).collect()).unwrap_or_default();
+            eprintln!("  {vp:?} {name} pn={} {} {}", d["header"]["packet_number"], frames.join(" "), if name.contains("state") { format!("{} -> {} ({})", d["old"], d["new"], d["stream_side"]) } else { String::new() });
+        }
+    }
+}
+
+/// debugging aid: every packet event of one vantage within a packet-number window of the data space
+pub fn dump_window(out: &Outcome, server: bool, lo: u64, hi: u64) {
+    let t0 = out.events.first().and_then(|(_, e)| serde_json::to_value(e).ok()).and_then(|j| j["time"].as_f64()).unwrap_or(0.0);
+    for (vp, e) in &out.events {
+        let Ok(j) = serde_json::to_value(e) else { continue };
+        let name = j["name"].as_str().unwrap_or("");
+        if !name.contains("packet") && !name.contains("acked") {
+            continue;
+        }
+        let d = &j["data"];
+        let is_server = matches!(vp, qevent::VantagePointType::Server);
+        let pn = d["header"]["packet_number"].as_u64();
+        let ty = d["header"]["packet_type"].as_str().unwrap_or("");
+        let t = j["time"].as_f64().unwrap_or(0.0) - t0;
+        if name == "quic:packets_acked" {
+            if is_server == server {
+                let v: Vec<u64> = d["packet_nubers"].as_array().map(|a| a.iter().filter_map(|x| x.as_u64()).collect()).unwrap_or_default();
+                if v.iter().any(|p| *p >= lo && *p <= hi) {
+                    eprintln!("  {t:9.3} {vp:?} packets_acked {:?} {}", v, d["packet_number_space"]);
+                }
+            }
+            continue;
+        }
+        if ty != "1RTT" {
+            continue;
+        }
+        // packets sent by `server` side in [lo,hi] and everything the other side sends that carries an ack
+        let frames: Vec<String> = d["frames"].as_array().map(|fs| fs.iter().map(|f| match f["frame_type"].as_str() {
+            Some("ack") => format!("ack{}", f["acked_ranges"]),
+            Some("stream") => format!("stream{}[{}+{}{}]", f["stream_id"], f["offset"], f["length"], if f["fin"] == true { " FIN" } else { "" }),
+            Some(o) => o.to_string(),
+            None => "?".into(),
+        }).collect()).unwrap_or_default();
+        let mine = is_server == server && pn.is_some_and(|p| p >= lo && p <= hi);
+        let acks_mine = is_server != server && name == "quic:packet_sent" && frames.iter().any(|f| f.starts_with("ack"));
+        let rcvd_acks = is_server == server && name == "quic:packet_received" && frames.iter().any(|f| f.starts_with("ack"));
+        if mine || ((acks_mine || rcvd_acks) && t > 0.0) {
+            eprintln!("  {t:9.3} {vp:?} {name} pn={} {}", pn.unwrap_or(0), frames.join(" "));
         }
     }
 }
